@@ -110,7 +110,11 @@ func (s *syn) matchDecl(label string) {
 	for i := 0; i < np; i++ {
 		l := fmt.Sprintf("%s_p%d", label, i)
 		s.r.line()
-		s.r.site = "pair-start"
+		pairSite := "pair"
+		if i == np-1 {
+			pairSite = "lastpair"
+		}
+		s.r.site = pairSite + "-start"
 		key := func(kl string) {
 			if s.maybe(kl + "_isd") {
 				s.r.emit(rapid.SampledFrom([]string{"0", "1", "42", "010", "99999999999999999999"}).Draw(s.t, kl+"_d"))
@@ -133,7 +137,7 @@ func (s *syn) matchDecl(label string) {
 		}
 		s.r.emit(":")
 		s.r.emit(s.id(l + "_tg"))
-		s.r.site = "pair-end"
+		s.r.site = pairSite + "-end"
 		if s.pick(l+"_comma", 3) != 0 {
 			s.r.emit(",")
 		}
